@@ -25,6 +25,7 @@ for f in doc["findings"]:
     else:
         p = subprocess.run([os.path.join(ROOT, "check"), f["property"], "--replay", rp, "--quiet"],
                            capture_output=True, text=True)
-        print("%s %s open: replay rc=%s (0 = attributed / no unlisted violation)" % (f["property"], f["id"], p.returncode))
-        bad += p.returncode != 0
+        attributed = ("'%s'" % f["id"]) in p.stdout
+        print("%s %s open: replay rc=%s attributed=%s" % (f["property"], f["id"], p.returncode, attributed))
+        bad += (p.returncode != 0) + (not attributed)
 sys.exit(1 if bad else 0)
